@@ -2,7 +2,19 @@
 
 Apply one to a scratch copy (`cp -r /repo /tmp/x`, replace the single occurrence of `old` by `new`),
 run `VERIF_REPO=/tmp/x ./check C07 --tier quick`, expect a VIOLATION, remove the copy.
-Results (unit tests of the repository / clause that fired) are listed in the C07 report.
+
+Results on 2026-10-04 (repository's own 377 tests / first clause that fired in the quick tier):
+  M1  renumber with cumsum (off by one)            1 test fails   cells-reference-existing-vertices, cells-connect-same-coordinates, keeps-its-value
+  M1b same in CellObject.copy                      1 test fails   cells-reference-existing-vertices ... the copy, keeps-its-value ... the copy
+  M2  vertex removal edits CELL children           377 pass       one-entry-per-element float/VERTEX, keeps-its-value integer/CELL
+  M3  format_length pads with 0                    2 tests fail   shorter-padded float/VERTEX, integer/CELL "wrong padding"
+  M4  masked Data.copy takes the prefix            6 tests fail   keeps-its-value ... the copy (Points and CellObject)
+  M5  renumber cells before dropping them          2 tests fail   cells-connect-same-coordinates, cells-reference-existing-vertices, keeps-its-value
+  M6  Surface.cells setter does not persist        3 tests fail   after re-open: one-entry-per-element / cells-connect-same-coordinates
+  M7  uncached values fetched through .values      1 test fails   failed-operation-leaves-consistent Points.remove_vertices / CellObject.remove_cells raised ValueError
+  M8  copy keeps cells with ANY vertex in mask     3 tests fail   cells-reference-existing-vertices ... the copy, cells-connect-same-coordinates
+  M9  multi-index remove_cells drops one index     377 pass       failed-operation-leaves-consistent CellObject.remove_cells raised ValueError
+      less for the data
 """
 MUTANTS = {
  "M1-renumber-cumsum": ("geoh5py/objects/cell_object.py",
